@@ -137,17 +137,29 @@ contract('RelayPool._remove_client', module=MP, props=['C19'],
                   'implies(self.queue.n > 0, len(self.pool) >= 1)'],
          modifies=['contents(self.pool)', 'fresh'])
 
-contract('RelayPool.attempt', module=MP, props=['C19'],
+# G2 for the pool: whenever attempt() can be descheduled (it waits for its result) the pool invariant holds and no
+# request waits without a client; meanwhile other greenlets (other attempts, clients ending) may change the pool,
+# the queue and the idle flags in any way that keeps the invariant
+from pyvc.registry import monitor
+monitor('RelayPool',
+        inv=['INV_pool(self)', 'implies(self.queue.n > 0, len(self.pool) >= 1)'],
+        shared=['contents(self.pool)', 'self.queue.n', 'self.queue.sema.counter', 'self.queue.sema.held',
+                'any(RelayPoolClient).idle'])
+contract('RelayPool.attempt', module=MP, props=['C19'], yields=True,
          params={'self': 'RelayPool', 'envelope': 'Envelope', 'attempts': 'Int'},
          returns='Any',
          requires=['INV_pool(self)'],
-         ensures=['INV_deque(self.queue)', 'self.queue.n == old(self.queue.n) + 1', 'len(self.pool) >= 1',
-                  'self.pool_size is None or len(self.pool) <= cast(self.pool_size, Int)'],
-         raises={'TransientRelayError': ['len(self.pool) >= 1'], 'PermanentRelayError': ['len(self.pool) >= 1'],
+         # after the wait only the (re-established) pool invariant is known: other greenlets ran meanwhile
+         ensures=['INV_pool(self)'],
+         raises={'TransientRelayError': ['INV_pool(self)'], 'PermanentRelayError': ['INV_pool(self)'],
                  'OtherException': []},
          # C19 "the result of its own envelope": the request queued is the pair (a NEW result object, THIS envelope),
          # and what attempt() hands back is what was written to that very result object
-         call_requires={'BlockingDeque.append': ['fresh(result)', 'not result.answered']},
+         call_requires={'BlockingDeque.append': ['fresh(result)', 'not result.answered'],
+                        # at the moment attempt() starts waiting its request is queued, a client exists to serve it
+                        # and the pool is within its bound
+                        'AsyncResult.get': ['self.queue.n == old(self.queue.n) + 1', 'len(self.pool) >= 1',
+                                            'self.pool_size is None or len(self.pool) <= cast(self.pool_size, Int)']},
          checks=['ncalls("BlockingDeque.append") == 1 and ncalls("AsyncResult.get") == 1'],
          locals={'result': 'AsyncResult'},
          modifies=['contents(self.pool)', 'self.queue.n', 'self.queue.sema.counter', 'self.queue.sema.held', 'fresh'])
